@@ -435,7 +435,7 @@ def _short(pretty):
 
 
 def run_harnesses(stage_dir, names, jobs=16, timeout_s=600, target_dir=DEFAULT_TARGET_DIR,
-                  extra_args=(), log_dir=None):
+                  extra_args=(), log_dir=None, deadline_s=None):
     """Verify the harnesses `names` (short fn names; None/empty = every harness
     found in <stage_dir>/verif_harness). Returns {name: result}, result =
     dict(status, reason, failed_checks=[{description, location}], cover_satisfied,
@@ -464,7 +464,8 @@ def run_harnesses(stage_dir, names, jobs=16, timeout_s=600, target_dir=DEFAULT_T
     cmd += list(extra_args)
 
     waves = (len(names) + max(1, jobs) - 1) // max(1, jobs)
-    deadline = 300 + waves * (timeout_s + 15)
+    # whole-run deadline: build allowance + every wave running into its timeout
+    deadline = deadline_s if deadline_s else 300 + waves * (timeout_s + 15)
 
     with _DirLock(target_dir):
         rod = os.path.join(target_dir, 'result_output_dir')
@@ -527,22 +528,20 @@ def run_harnesses(stage_dir, names, jobs=16, timeout_s=600, target_dir=DEFAULT_T
     if os.path.isdir(per_dir):
         for fn in os.listdir(per_dir):
             sh = _short(fn)
-            if sh in by_short and by_short[sh]['checks']:
-                by_short[sh]['file'] = os.path.join(per_dir, fn)
+            fpath = os.path.join(per_dir, fn)
+            if sh in by_short:
+                # the JSON export is authoritative; keep the file as the log
+                by_short[sh]['file'] = fpath
                 continue
-            with open(os.path.join(per_dir, fn), encoding='utf-8', errors='replace') as f:
-                parsed = parse_regular_output(f.read())
-            if parsed['verdict'] is None and not parsed['checks']:
-                prev = by_short.get(sh, {})
-                prev.setdefault('pretty', fn)
-                prev['file'] = os.path.join(per_dir, fn)
-                by_short[sh] = dict({'checks': [], 'kani_status': None, 'seconds': None,
-                                     'error': None, 'source': 'per-harness file (no verdict)'}, **prev)
-                continue
+            with open(fpath, encoding='utf-8', errors='replace') as f:
+                ftext = f.read()
+            parsed = parse_regular_output(ftext)
             by_short[sh] = {'pretty': fn, 'checks': parsed['checks'], 'kani_status': parsed['verdict'],
-                            'seconds': parsed['seconds'], 'error': None,
+                            'seconds': parsed['seconds'],
+                            'error': ({'exit_status': 'timeout'} if 'CBMC timed out' in ftext else
+                                      {'exit_status': 'cbmc failed'} if 'CBMC failed' in ftext else None),
                             'should_panic': 'as expected' in (parsed['verdict'] or ''),
-                            'source': 'per-harness file', 'file': os.path.join(per_dir, fn)}
+                            'source': 'per-harness file', 'file': fpath}
 
     timed_out = set(_short(x) for x in re.findall(r'Harness (\S+) timed out', log_text))
     timed_out |= set(_short(x) for x in re.findall(r'(\S+) timed out after', log_text))
